@@ -135,24 +135,41 @@ Proof. exact discover_sound. Qed.
 Print Assumptions discover_versions_sound.
 
 (* ---------------------------------------------------------------- attributes *)
-(* in a template attribute: a name introduced after v (or unknown to the table) makes the request fail at the gate *)
-Theorem attr_gated_template : forall v names n r,
-  In n names -> find_rule n = Some r -> ver_ltb v (ar_version_added r) = true ->
-  exists m, template_gate v names = Some m /\ In m names /\ attr_supported v m = false.
+(* in a template attribute (the walk of _process_template_attribute: version gate and multiplicity rules position by
+   position): an attribute introduced after v - or unknown to the table - anywhere in the template makes the walk fail,
+   whatever else the template holds; when it fails with the version error, the attribute named is one of the template
+   that v does not have (the first such); when it succeeds every attribute of the template is one v has *)
+Theorem attr_gated_template : forall v items seen n r,
+  In n (map ti_name items) -> find_rule n = Some r -> ver_ltb v (ar_version_added r) = true ->
+  template_walk v seen items <> TOk.
 Proof.
-  intros v names n r Hin Hr Hlt.
-  exact (template_gate_refuses v names n Hin (attr_later_unsupported v n r Hr Hlt)).
+  intros v items seen n r Hin Hr Hlt.
+  exact (template_walk_rejects v items seen n Hin (attr_later_unsupported v n r Hr Hlt)).
 Qed.
 Print Assumptions attr_gated_template.
 Example attr_gated_template_hyp :
-  exists r, find_rule "Sensitive" = Some r /\ ver_ltb (1, 3) (ar_version_added r) = true /\ template_gate (1, 3) ["Name"; "Sensitive"] = Some "Sensitive".
+  exists r, find_rule "Sensitive" = Some r /\ ver_ltb (1, 3) (ar_version_added r) = true
+    /\ template_walk (1, 3) [] [("Name", true, false); ("Sensitive", false, false)] = TUnsupported "Sensitive"
+    /\ template_walk (1, 0) [] [("State", false, false); ("State", false, false); ("Sensitive", false, false)] = TOther
+    /\ template_walk (1, 4) [] [("Name", true, false); ("Sensitive", false, false)] = TOk.
 Proof. eexists; repeat split; vm_compute; reflexivity. Qed.
 
-Theorem attr_gated_template_unknown : forall v names n,
-  In n names -> find_rule n = None -> exists m, template_gate v names = Some m /\ In m names /\ attr_supported v m = false.
+Theorem attr_gated_template_unknown : forall v items seen n,
+  In n (map ti_name items) -> find_rule n = None -> template_walk v seen items <> TOk.
 Proof.
-  intros v names n Hin Hr. exact (template_gate_refuses v names n Hin (attr_unknown_unsupported v n Hr)).
+  intros v items seen n Hin Hr. exact (template_walk_rejects v items seen n Hin (attr_unknown_unsupported v n Hr)).
 Qed.
+Print Assumptions attr_gated_template_unknown.
+
+Theorem attr_gated_template_error_names_it : forall v items seen m, template_walk v seen items = TUnsupported m ->
+  In m (map ti_name items) /\ attr_supported v m = false /\ template_gate v (map ti_name items) = Some m.
+Proof. exact template_walk_unsupported. Qed.
+Print Assumptions attr_gated_template_error_names_it.
+
+Theorem attr_gated_template_accepted : forall v items seen, template_walk v seen items = TOk ->
+  forall n, In n (map ti_name items) -> attr_supported v n = true.
+Proof. exact template_walk_ok. Qed.
+Print Assumptions attr_gated_template_accepted.
 
 (* GetAttributes / GetAttributeList: whatever is reported is in the table, was added no later than v and is not
    deprecated at v - for every object (held), every requested list *)
